@@ -246,7 +246,14 @@ class BaseScanner(ABC):
             service_info = self._services.get(service_name)
             if service_info:
                 _, extractor = service_info
-                dict_merge(device_info, extractor(service_name, service_properties))
+                try:
+                    dict_merge(
+                        device_info, extractor(service_name, service_properties)
+                    )
+                except Exception:
+                    _LOGGER.exception(
+                        "Failed to extract device info from %s", service_name
+                    )
 
         # If model was discovered via _device-info._tcp.local, manually add that
         # to the device info
